@@ -124,3 +124,45 @@ def evalUnmatched (s : MS) (opener closer : Gr) (fwd : Bool) : MK :=
 
 end Delim
 end Vicut
+
+namespace Vicut
+namespace Delim
+
+/-- The forward scan of `text_obj_delim` when no opener encloses the cursor: the first opener at nesting 0
+is the start, the closer that brings the nesting back from 1 is the end (`oc`: nesting, `st`: start so far). -/
+def scanPair (gs : List Gr) (opener closer : Gr) : List Nat → Nat → Option Nat → Option (Nat × Nat)
+  | [], _, _ => none
+  | i :: rest, oc, st =>
+    if escaped gs i then scanPair gs opener closer rest oc st
+    else match gs[i]? with
+      | none => none
+      | some g =>
+        if g = opener then scanPair gs opener closer rest (oc + 1) (if oc = 0 then some i else st)
+        else if g = closer then
+          (if oc = 1 then st.map (fun a => (a, i)) else scanPair gs opener closer rest (oc - 1) st)
+        else scanPair gs opener closer rest oc st
+
+/-- `a(` takes the blanks after the closer, up to the end of the cursor's line -/
+def extendWs (s : MS) (eol : Nat) : Nat → Nat → Nat
+  | 0, e => e
+  | f + 1, e => if e < eol && (s.ws[e]?.getD false) && decide (e < s.max) then extendWs s eol f (e + 1) else e
+
+/-- `text_obj_delim(count, obj, bound)` (the count is ignored): the pair around the cursor — the nearest
+unmatched opener before it and its closer — else the first pair after it. -/
+def textObjDelim (s : MS) (opener closer : Gr) (around : Bool) : Option (Nat × Nat) :=
+  let pair : Option (Nat × Nat) :=
+    match scanUnmatched s.gs closer opener (List.range s.cur).reverse 0 with
+    | some st =>
+      (scanUnmatched s.gs opener closer (List.range' (st + 1) (s.max - (st + 1))) 0).map (fun e => (st, e))
+    | none => scanPair s.gs opener closer (List.range' s.cur (s.max - s.cur)) 0 none
+  pair.map (fun (st, e) =>
+    if around then (st, extendWs s s.eol (s.eol - (e + 1)) (e + 1)) else (st + 1, e))
+
+/-- The delimiter arm of `eval_motion`'s text objects. -/
+def evalTextObjDelim (s : MS) (opener closer : Gr) (around : Bool) : MK :=
+  match textObjDelim s opener closer around with
+  | none => .null
+  | some (a, b) => .exclusive a b
+
+end Delim
+end Vicut
